@@ -392,7 +392,11 @@ static void do_dup(hwloc_topology_t A, hwloc_topology_t *Bp)
 {
   int rc; struct hwv_walk wa, wb;
   errno = 0;
-  rc = hwloc_topology_dup(Bp, A);
+  /* The raw-tree, sharing and frame statements of C12 are about hwloc__topology_dup (the model's dup_tree).  Since the
+   * /repo fix "refresh the distances and memory attribute caches of a duplicated topology" the public
+   * hwloc_topology_dup() is that function followed by hwloc_topology_refresh() on the copy (which, when the ORIGINAL holds
+   * stale unrefreshed entries, legitimately drops them from the copy): the public wrapper is exercised by firstq and dupdup. */
+  rc = hwloc__topology_dup(Bp, A, NULL);
   printf("dup rc=%d errno=%s\n", rc, rc < 0 ? hwv_errno_class(errno) : "0");
   if (rc < 0) { *Bp = NULL; return; }
   fputs("A\n", stdout); hwv_dump_topology(stdout, A, 0);
